@@ -503,8 +503,11 @@ mod mon_bytes_run {
             |a, b| a.merge(b),
         );
         acc.merge(long);
+        // recipe-steered block (memo aliases, one object stored twice, stores through GET copies)
+        let st = crate::mon_trace::steered_block(if thorough { 40_000 } else { 4_000 }, seed, true, &check_c02);
+        acc.merge(st);
         // deep-state block: one opcode greedily for thousands of steps
-        let deep_sizes: Vec<usize> = if thorough { vec![4200, 11_000, 20_500, 70_000] } else { vec![4200, 20_500] };
+        let deep_sizes: Vec<usize> = if thorough { vec![4200, 11_000, 20_500, 40_000] } else { vec![4200, 20_500] };
         let deep = crate::mon_trace::deep_block(if thorough { 1500 } else { 150 }, seed, pickle_fuzzer::verif::Config { snapshots: false, choices: false, step_limit: 0 }, &deep_sizes, &check_c02);
         acc.merge(deep);
         cli_layer(&mut acc, thorough, false, check_c02);
@@ -539,7 +542,7 @@ mod mon_bytes_run {
         let acc2 = bulk(n2, seed ^ 0xE474, &sp2, None, check_c04);
         acc.merge(acc2);
         // deep-state block: one opcode greedily for thousands of steps
-        let deep_sizes: Vec<usize> = if thorough { vec![4200, 20_500, 70_000] } else { vec![4200, 20_500] };
+        let deep_sizes: Vec<usize> = if thorough { vec![4200, 20_500, 40_000] } else { vec![4200, 20_500] };
         let deep = crate::mon_trace::deep_block(if thorough { 1500 } else { 150 }, seed, pickle_fuzzer::verif::Config { snapshots: false, choices: false, step_limit: 0 }, &deep_sizes, &check_c04);
         acc.merge(deep);
         cli_layer(&mut acc, thorough, true, check_c04);
